@@ -219,7 +219,11 @@ Definition run_slash (c impl : sexp) : sexp :=
   Lst [ Lst [routed_obs t x1; routed_obs t x2];
         Lst [ verdict "c14_same_outcome" (implb in_scope (sexp_eqb i1 i2)) ];
         A (L cls);
-        Lst [ verdict "in_scope" in_scope ] ].
+        Lst [ verdict "in_scope" in_scope;
+              verdict "hypotheses_of_C14_jsr"
+                (match t_router t with
+                 | Jsr311 => table_plain O t && negb (match rev (rq_path req) with ch :: _ => Ascii.eqb ch slash | [] => true end)
+                 | Curly => false end) ] ].
 
 (* ---- domain "allow" (C17): (oracles table request)
    impl: (((method status allow-set) ...) (status allow-list acam-list invoked) untouched) ---- *)
